@@ -355,3 +355,128 @@ def token_templates(ctx, frag, depth=2):
                         visit(h, d - 1)
     visit(frag, depth)
     return out
+
+
+def ring_prefix_paths(ctx, owner, fmt_node, arg0):
+    """Per-path summary of the prefix printed in a ring token '[<prefix>Ring<L>]'.
+
+    form A  the prefix is the result of a package function called with the two directed bonds of the ring bond
+            (``_ring_bonds_to_selfies(rev_bond, bond)``): that function is run on two symbolic bonds L, R
+    form B  the prefix is a local of the function that formats the token, which also fetches the reverse bond itself
+            (``lbond = mol.get_dirbond(src=rbond.dst, dst=rbond.src)``): the formatting function is run with the ring bond
+            parameter bound to the symbolic bond R, the fetched bond is L, and the value of the local is taken at the
+            formatting call
+    -> dict(P=function reported, eng, h, paths=[(state, value)], lkey, rkey, form, pcall (A) / rname (B), rev_ok (B))"""
+    from sa.sym import Engine, Obj, Con, vkey
+    from sa.strlang import IntFacts
+    from rules import symlang
+    L0 = Obj(("L",), "selfies.mol_graph.DirectedBond")
+    R0 = Obj(("R",), "selfies.mol_graph.DirectedBond")
+    arg0 = resolve_local(owner, arg0)          # prefix = f(rev_bond, bond) bound to a local first
+    if isinstance(arg0, ast.Call) and len(arg0.args) == 2 and not arg0.keywords:
+        site = {id(s.node): s for s in ctx.cg.sites(owner)}.get(id(arg0))
+        if site is None or len(site.callees) != 1:
+            raise AnalysisError("ring prefix function not resolved")
+        P = site.callees[0]
+        h = IntFacts(ctx)
+        eng = Engine(ctx, h)
+        h.bind(eng)
+        h.sl.field_domain["stereo"] = symlang.stereo_domain(ctx)
+        fr = eng.run_function(P, {P.posparams[0]: L0, P.posparams[1]: R0})
+        return dict(P=P, eng=eng, h=h, paths=list(fr.returns), lkey=vkey(L0), rkey=vkey(R0), form="A", pcall=arg0, frame=fr)
+    if isinstance(arg0, ast.Name) and arg0.id in owner.locals and arg0.id not in owner.params:
+        gds = [c for c in own_nodes(owner.node) if isinstance(c, ast.Call) and isinstance(c.func, ast.Attribute) and c.func.attr == "get_dirbond"]
+        if len(gds) != 1:
+            raise AnalysisError("ring token: the reverse bond is not fetched by exactly one get_dirbond call in %s" % owner.name)
+        c = gds[0]
+        kw = {k.arg: k.value for k in c.keywords}
+        src = kw.get("src", c.args[0] if c.args else None)
+        dst = kw.get("dst", c.args[1] if len(c.args) > 1 else None)
+        rname = None
+        if isinstance(src, ast.Attribute) and isinstance(dst, ast.Attribute) and isinstance(src.value, ast.Name) and isinstance(dst.value, ast.Name) \
+                and src.value.id == dst.value.id:
+            rname = src.value.id
+        rev_ok = rname is not None and src.attr == "dst" and dst.attr == "src"
+        if rname is None or rname not in owner.params:
+            raise AnalysisError("ring token: the ring bond whose reverse is fetched is not a parameter of %s" % owner.name)
+        captured = []
+
+        class H(IntFacts):
+            def on_call(self, eng, fr, node, callee, args, kwargs, st):
+                if node is c and fr.func is owner:
+                    return [(st, L0)]
+                if node is fmt_node and fr.func is owner and args:
+                    captured.append((st, args[0]))
+                return IntFacts.on_call(self, eng, fr, node, callee, args, kwargs, st)
+        h = H(ctx)
+        eng = Engine(ctx, h)
+        h.bind(eng)
+        h.sl.field_domain["stereo"] = symlang.stereo_domain(ctx)
+        fr = eng.run_function(owner, {rname: R0})
+        if not captured:
+            raise AnalysisError("ring token: the formatting call in %s is not reached by the abstract run" % owner.name)
+        return dict(P=owner, eng=eng, h=h, paths=captured, lkey=vkey(L0), rkey=vkey(R0), form="B", rname=rname, rev_ok=rev_ok, frame=fr)
+    raise AnalysisError("ring prefix is neither a call with two directed bonds nor a local of the formatting function")
+
+
+def atom_token_printer(ctx):
+    """the encoder's atom-token printer, by role: the function of the encoder module that calls the (public) atom printer
+    atom_to_smiles -- whatever it is called"""
+    key = ("atom_token_printer",)
+    if key not in ctx.cache:
+        a2s = ctx.fn("selfies.utils.smiles_utils.atom_to_smiles")
+        encf = ctx.api("encoder")
+        reg = set(ctx.cg.region(encf))
+        cands = [g for g in ctx.db.funcs.values() if g.module is encf.module and g.cls is None and g.qual in reg and g is not encf
+                 and any(a2s in s_.callees for s_ in ctx.cg.sites(g))]
+        # the printer formats a bracketed token; a strict-check message that also spells atoms does not
+        tok = [g for g in cands if any(isinstance(n, ast.Constant) and isinstance(n.value, str) and n.value.startswith("[") and "{" in n.value
+                                       for n in own_nodes(g.node))
+               or any(isinstance(n, ast.JoinedStr) and n.values and isinstance(n.values[0], ast.Constant) and str(n.values[0].value).startswith("[")
+                      for n in own_nodes(g.node))]
+        pick = tok if len(tok) == 1 else (cands if len(cands) == 1 else [])
+        if len(pick) != 1:
+            raise AnalysisError("the encoder's atom-token printer (caller of atom_to_smiles) was not identified (%d candidate(s))" % len(cands))
+        ctx.cache[key] = pick[0]
+    return ctx.cache[key]
+
+
+def chirality_decider(ctx):
+    """the function that decides whether a centre is inverted, by role: the encoder-module function called in the condition
+    that guards the call of <atom>.invert_chirality()"""
+    key = ("chirality_decider",)
+    if key not in ctx.cache:
+        encf = ctx.api("encoder")
+        reg = set(ctx.cg.region(encf))
+        found = []
+        for g in ctx.db.funcs.values():
+            if g.module is not encf.module or g.qual not in reg and g is not encf:
+                continue
+            sites = {id(s_.node): s_ for s_ in ctx.cg.sites(g)}
+            for n in own_nodes(g.node):
+                if isinstance(n, ast.If) and any(isinstance(c, ast.Call) and isinstance(c.func, ast.Attribute) and c.func.attr == "invert_chirality"
+                                                 for b in n.body for c in ast.walk(b)):
+                    for c in ast.walk(n.test):
+                        s_ = sites.get(id(c))
+                        if s_ is not None:
+                            for h in s_.callees:
+                                if h.module is encf.module and h.cls is None and h not in found:
+                                    found.append(h)
+        if len(found) != 1:
+            raise AnalysisError("the function deciding the chirality inversion was not identified (%d candidate(s))" % len(found))
+        ctx.cache[key] = found[0]
+    return ctx.cache[key]
+
+
+def resolve_local(f, expr, depth=3):
+    """follow a local name bound exactly once in f (plain assignment) to the expression it names"""
+    for _ in range(depth):
+        if not (isinstance(expr, ast.Name) and expr.id in f.locals and expr.id not in f.params):
+            break
+        binds = [n for n in own_nodes(f.node) if isinstance(n, ast.Name) and n.id == expr.id and isinstance(n.ctx, ast.Store)]
+        asg = [n for n in own_nodes(f.node) if isinstance(n, ast.Assign) and len(n.targets) == 1 and isinstance(n.targets[0], ast.Name)
+               and n.targets[0].id == expr.id]
+        if len(binds) != 1 or len(asg) != 1:
+            break
+        expr = asg[0].value
+    return expr
